@@ -2143,6 +2143,8 @@ class Measurement:
         measurand = self.measurand**exponent
         if exponent == 0:
             return Measurement(measurand, 0)
+        if exponent == 1:
+            return Measurement(measurand, self.uncertainty)
 
         uncertainty = math.sqrt(
             _pow(
